@@ -62,7 +62,7 @@ NS = {A: "urn:xpa", B: "urn:xpb"}
 CONFLICT = {"s", "v"}
 
 # Every inner node of a generated tree has at least two terminal descendants (the `always` leaves): libyang renders the string-value of an
-# inner node as an indented block (F55) and canonises a string operand by the type of the node it is compared with (deliberate) — a block
+# inner node as an indented block (F255) and canonises a string operand by the type of the node it is compared with (deliberate) — a block
 # with a single numeric line would be a valid int32 lexical form with surrounding white space.
 # value pools.  No string is a valid but non-canonical lexical form of int32 / bits / identityref, so libyang's
 # canonisation of the string operand of a comparison (set_comp_canonize, deliberate) is the identity on them.
@@ -120,7 +120,7 @@ def gen_tree(rng, schema, density=0.7, maxinst=5):
             return "<%s%s>%s</%s>" % (tag, ns, body, tag)
         if n["kind"] == "l":
             k = rng.choice([0, 1, 2, 3, 4, maxinst])
-            # the last top-level node must have a child, or every reverse-order node-set crashes get_node_pos() (F59, which has its own witness)
+            # the last top-level node must have a child, or every reverse-order node-set crashes get_node_pos() (F259, which has its own witness)
             if not path and k == 0: k = 1
             seen, out = set(), ""
             for _ in range(k):
@@ -146,7 +146,7 @@ def gen_tree(rng, schema, density=0.7, maxinst=5):
 # start = 'R' | 'C' | ('E', expr);  step = (axis, test, [preds], dslash);  test = ('n', pfx|None, name) | ('a',) | ('m', pfx) | ('o',) | ('t',)
 AXES = ["child", "descendant", "parent", "ancestor", "following-sibling", "preceding-sibling", "following", "preceding", "attribute", "self",
         "descendant-or-self", "ancestor-or-self"]
-# the attribute axis is kept out of the generated streams: the data carries no annotations, and libyang's own bookkeeping metadata is visible there (F62)
+# the attribute axis is kept out of the generated streams: the data carries no annotations, and libyang's own bookkeeping metadata is visible there (F262)
 AXES_GEN = [a for a in AXES if a != "attribute"]
 PREC = {"or": 1, "and": 2, "eq": 3, "ne": 3, "lt": 4, "le": 4, "gt": 4, "ge": 4, "add": 5, "sub": 5, "mul": 6, "div": 6, "mod": 6, "union": 8}
 OPTXT = {"or": "or", "and": "and", "eq": "=", "ne": "!=", "lt": "<", "le": "<=", "gt": ">", "ge": ">=", "add": "+", "sub": "-", "mul": "*", "div": "div",
@@ -331,7 +331,7 @@ class Gen:
             if r.random() < 0.03: n = dict(n, name="nosuch")
         pfx = n["mod"] if r.random() < 0.5 else None
         if r.random() < 0.03: pfx = B if n["mod"] == A else A
-        # an unprefixed name means "the parent's module" on libyang's hash path and "any module" on its generic path (F58):
+        # an unprefixed name means "the parent's module" on libyang's hash path and "any module" on its generic path (F258):
         # names defined by both modules under one parent always carry a prefix on the child axis
         if pfx is None and axis == "child" and n["name"] in CONFLICT: pfx = n["mod"]
         if self.always_prefix: pfx = n["mod"]
@@ -419,7 +419,7 @@ class Gen:
         elif x < 0.9 or not allow_filter or depth <= 0:
             start, c = "C", cur
         else:
-            # filter expression as the start: a union must not be followed by a child/self step (see F57 in c08.py)
+            # filter expression as the start: a union must not be followed by a child/self step (see F257 in c08.py)
             inner = self.expr("ns", depth - 1, cur, no_path=True)
             start, c = ("E", inner), None
             if inner == ("fn", "current", []):
@@ -430,7 +430,7 @@ class Gen:
                 steps.append(st)
         n = r.choice([0, 1, 1, 2, 2, 3, 4]) if start != "R" else r.choice([0, 1, 2, 2, 3, 3, 4])
         # `anti`: no node of the current set is an ancestor of another one.  libyang's `//name` returns duplicates and its child step
-        # returns nodes out of document order on sets that are not antichains (F57), so `//` is only generated while `anti` holds, and
+        # returns nodes out of document order on sets that are not antichains (F257), so `//` is only generated while `anti` holds, and
         # a wide `//*` must not be followed by a child/self step.
         anti = start in ("R", "C") or (isinstance(start, tuple) and start[1] == ("fn", "current", []))
         for st0 in steps:
@@ -543,13 +543,13 @@ WITNESS_XML = ('<c xmlns="urn:xpa"><s>hello</s><n>5</n><b>true</b><e>two</e><bit
                '<ref>b</ref><ca>cc</ca><v xmlns="urn:xpb">bvv</v><s xmlns="urn:xpb">bs</s><ext xmlns="urn:xpb"><x>ex</x></ext></c>'
                '<small xmlns="urn:xpa"><a>sa</a><sl>z</sl><sl>y</sl></small>'
                '<top xmlns="urn:xpa"><id>2</id><v>t2</v></top><top xmlns="urn:xpa"><id>1</id><v>t1</v></top>')
-# last top-level node without children (F59)
+# last top-level node without children (F259)
 WITNESS_XML_F59 = '<c xmlns="urn:xpa"><s>a</s><n>1</n></c>'
 
 C_, L1 = st("c"), st("l1")
 U_C_L1 = bop("union", absp(C_), absp(C_, L1))
-# (finding, tree, context (0 = root), expression).  Mirrored deviations (F38-F41, F50-F56, F61) also occur in the random stream;
-# the entries here make sure each is exercised on every run.  F57/F58/F60 are not mirrored by the engine: witness only.
+# (finding, tree, context (0 = root), expression).  Mirrored deviations (F38-F41, F250-F256, F261) also occur in the random stream;
+# the entries here make sure each is exercised on every run.  F257/F258/F260 are not mirrored by the engine: witness only.
 WITNESSES = [
     ("F38", 0, fn("string", num(25, 2))), ("F38", 0, fn("string", num(275, 2))), ("F38", 0, fn("concat", bop("div", num(1), num(4)), lit(""))),
     ("F39", 0, fn("number", lit("12  "))), ("F39", 0, fn("number", lit("1e3"))), ("F39", 0, fn("number", lit("+1"))),
@@ -557,38 +557,38 @@ WITNESSES = [
     ("F40", 0, fn("floor", ("neg", num(15, 1)))), ("F40", 0, fn("ceiling", ("neg", num(15, 1)))), ("F40", 0, fn("round", ("neg", num(1)))),
     ("F40", 0, fn("round", ("neg", num(26, 1)))), ("F40", 0, bop("div", num(1), fn("round", num(0)))),
     ("F41", 0, fn("string-length", lit("ü€"))), ("F41", 0, fn("substring", lit("üx"), num(2))), ("F41", 0, fn("translate", lit("ü"), lit("ü"), lit("u"))),
-    ("F50", 0, absp(C_, L1, st(STAR, preds=[num(1)]))), ("F50", 0, absp(C_, L1, st(STAR, preds=[fn("last")]))),
-    ("F50", 0, absp(C_, L1, st("in"), st(STAR, "ancestor", preds=[num(1)]))),
-    ("F51", 0, absp(C_, st("l1", preds=[num(2)]), st("k"), st(STAR, "preceding"))),
-    ("F51", 0, absp(C_, st("l1", preds=[num(1)]), st("in"), st("x"), st(STAR, "following"))),
-    ("F51", 0, absp(C_, st("l1", preds=[num(2)]), st("c", "preceding"))),
-    ("F52", 0, fn("count", absp(C_, st(STAR, "ancestor")))), ("F52", 0, fn("count", absp(C_, st(STAR, "parent")))),
-    ("F52", 0, fn("count", absp(C_, st("s"), st(NODE)))),
-    ("F53", 0, absp(C_, st("ll", preds=[num(15, 1)]))), ("F53", 0, absp(C_, st("ll", preds=[bop("div", fn("last"), num(2))]))),
-    ("F54", 0, fn("count", absp(C_, st(TEXT, "descendant")))), ("F54", 0, fn("count", absp(C_, st("ls", preds=[bop("eq", DOT, lit(""))]), st(TEXT)))),
-    ("F55", 0, fn("string", absp(C_, st("l1", preds=[num(1)])))), ("F55", 0, fn("string-length", ("path", "R", []))),
-    ("F56", 0, bop("eq", absp(st("nosuch")), fn("false"))), ("F56", 0, bop("ne", absp(st("nosuch")), fn("true"))),
-    ("F56", 0, bop("lt", absp(st("nosuch")), fn("true"))), ("F56", 0, bop("gt", fn("false"), absp(C_, st("ll")))),
-    ("F61", 0, fn("floor", bop("div", num(1), num(0)))), ("F61", 0, fn("floor", bop("div", num(0), num(0)))),
-    ("F64", 0, fn("substring", lit("12345"), ("neg", bop("div", num(1), num(0))))),
-    ("F57", 0, ("path", ("E", U_C_L1), [st(STAR)])),
-    ("F57", 0, absp(st(STAR, ds=True), st(STAR))),
-    ("F57", 0, ("path", ("E", U_C_L1), [st("k", ds=True)])),
-    ("F57", 0, fn("count", ("path", ("E", U_C_L1), [st(STAR, ds=True)]))),
-    ("F57", 0, ("filter", absp(st(STAR, ds=True), st(STAR)), [num(2)])),
-    ("F57", 0, fn("string", ("path", ("E", bop("union", absp(C_, L1, st("in")), absp(C_, st("l1", preds=[num(2)])))), [st(STAR)]))),
-    ("F58", 0, absp(C_, L1, st(("n", None, "v")))),
-    ("F58", 0, absp(C_, st(STAR, preds=[bop("or", relp(st("l1", "self")), relp(st("l2", "self")))]), st(("n", None, "v")))),
-    ("F60", 0, fn("count", absp(st(TEXT, ds=True)))), ("F60", 0, fn("count", absp(st(NODE, ds=True)))),
-    ("F62", 0, fn("count", absp(C_, st("l1", preds=[num(1)]), st(STAR, "attribute")))),
-    ("F62", 0, fn("name", absp(C_, st("ll", preds=[num(1)]), st(STAR, "attribute")))),
+    ("F250", 0, absp(C_, L1, st(STAR, preds=[num(1)]))), ("F250", 0, absp(C_, L1, st(STAR, preds=[fn("last")]))),
+    ("F250", 0, absp(C_, L1, st("in"), st(STAR, "ancestor", preds=[num(1)]))),
+    ("F251", 0, absp(C_, st("l1", preds=[num(2)]), st("k"), st(STAR, "preceding"))),
+    ("F251", 0, absp(C_, st("l1", preds=[num(1)]), st("in"), st("x"), st(STAR, "following"))),
+    ("F251", 0, absp(C_, st("l1", preds=[num(2)]), st("c", "preceding"))),
+    ("F252", 0, fn("count", absp(C_, st(STAR, "ancestor")))), ("F252", 0, fn("count", absp(C_, st(STAR, "parent")))),
+    ("F252", 0, fn("count", absp(C_, st("s"), st(NODE)))),
+    ("F253", 0, absp(C_, st("ll", preds=[num(15, 1)]))), ("F253", 0, absp(C_, st("ll", preds=[bop("div", fn("last"), num(2))]))),
+    ("F254", 0, fn("count", absp(C_, st(TEXT, "descendant")))), ("F254", 0, fn("count", absp(C_, st("ls", preds=[bop("eq", DOT, lit(""))]), st(TEXT)))),
+    ("F255", 0, fn("string", absp(C_, st("l1", preds=[num(1)])))), ("F255", 0, fn("string-length", ("path", "R", []))),
+    ("F256", 0, bop("eq", absp(st("nosuch")), fn("false"))), ("F256", 0, bop("ne", absp(st("nosuch")), fn("true"))),
+    ("F256", 0, bop("lt", absp(st("nosuch")), fn("true"))), ("F256", 0, bop("gt", fn("false"), absp(C_, st("ll")))),
+    ("F261", 0, fn("floor", bop("div", num(1), num(0)))), ("F261", 0, fn("floor", bop("div", num(0), num(0)))),
+    ("F264", 0, fn("substring", lit("12345"), ("neg", bop("div", num(1), num(0))))),
+    ("F257", 0, ("path", ("E", U_C_L1), [st(STAR)])),
+    ("F257", 0, absp(st(STAR, ds=True), st(STAR))),
+    ("F257", 0, ("path", ("E", U_C_L1), [st("k", ds=True)])),
+    ("F257", 0, fn("count", ("path", ("E", U_C_L1), [st(STAR, ds=True)]))),
+    ("F257", 0, ("filter", absp(st(STAR, ds=True), st(STAR)), [num(2)])),
+    ("F257", 0, fn("string", ("path", ("E", bop("union", absp(C_, L1, st("in")), absp(C_, st("l1", preds=[num(2)])))), [st(STAR)]))),
+    ("F258", 0, absp(C_, L1, st(("n", None, "v")))),
+    ("F258", 0, absp(C_, st(STAR, preds=[bop("or", relp(st("l1", "self")), relp(st("l2", "self")))]), st(("n", None, "v")))),
+    ("F260", 0, fn("count", absp(st(TEXT, ds=True)))), ("F260", 0, fn("count", absp(st(NODE, ds=True)))),
+    ("F262", 0, fn("count", absp(C_, st("l1", preds=[num(1)]), st(STAR, "attribute")))),
+    ("F262", 0, fn("name", absp(C_, st("ll", preds=[num(1)]), st(STAR, "attribute")))),
 ]
 # undefined behaviour / crashes: sent to the implementation only, one request per process
 CRASH_WITNESSES = [
     ("F37", WITNESS_XML, 0, fn("ceiling", bop("div", num(1), num(0)))),
     ("F37", WITNESS_XML, 0, fn("string", num(100000000000000000000))),
     ("F37", WITNESS_XML, 0, absp(C_, st("ll", preds=[fn("number", lit("x"))]))),
-    ("F59", WITNESS_XML_F59, 0, absp(C_, st("d"), st(STAR, "preceding-sibling"))),
+    ("F259", WITNESS_XML_F59, 0, absp(C_, st("d"), st(STAR, "preceding-sibling"))),
     ("F32", WITNESS_XML, 0, fn("bit-is-set", ("path", "R", []), lit("x"))),
 ]
 
